@@ -391,98 +391,10 @@ pub fn per_name_all(cx: &RunCtx, kinds: &[Kind]) {
     per_name_dom::<Num>(cx, kinds);
 }
 
-/// argument texts at which some function has a branch point, a pole, a sign change or a range limit
-pub fn critical_texts(ev: Ev) -> Vec<String> {
-    let mut t: Vec<&str> = vec![
-        "0", "1", "(-1)", "2", "(-2)", "3", "20", "21", "27", "28", "63", "64", "65", "66", "67", "(-66)", "95", "96", "143", "150", "170", "171", "(-171)", "709", "710", "(-745)", "1023", "1024", "(-1074)",
-        "(-1075)", "4294967296", "9007199254740993", "9223372036854775807", "(-9223372036854775807)", "@",
-    ];
-    if ev.has_point() {
-        t.extend([
-            "0.5", "(-0.5)", "1.5", "(-1.5)", "(-170.5)", "150.5", "(-150.5)", "26.5", "27.5", "66.5", "(-0.36787944117144233)", "(-0.36787944117144232)", "(-0.3678794411714423215955237702)",
-            "(-0.3678794411714423215955237701)", "(-0.3678794411714423215955237703)", "(-0.3678794411714423)", "(-0.36787944117144)", "(-0.367879441171443)", "0.36787944117144233",
-            "1.5707963267948966", "(-1.5707963267948966)", "1.5707963267948966192313216916", "3.141592653589793", "3.1415926535897932384626433833", "6.283185307179586", "2.718281828459045",
-            "2.7182818284590452353602874714", "0.9999999999999999", "1.0000000000000002", "(-0.9999999999999999)", "0.9999999999999999999999999999", "(-0.9999999999999999999999999999)",
-            "0.0000000000000000000000000001", "709.782712893384", "170.6", "171.7", "79228162514264337593543950335",
-        ]);
-    }
-    if ev.has_consts() {
-        t.extend(["e", "pi", "(-pi)", "(-e)", "(pi/2)", "(-pi/2)", "(pi/4)", "(2*pi)", "(3*pi/2)", "(1/e)", "(-1/e)", "(-(1/e))", "(-exp(-1))", "(e^-1)", "(-e^-1)", "(-1/exp(1))", "(pi/6)", "(e-1)", "(1-e)"]);
-    }
-    if ev == Ev::Cpx {
-        t.extend(["i", "(-i)", "(1+i)", "(-1+0i)", "(-1-0i)", "(2i)", "(-2i)", "(i*pi)", "(i*pi/2)", "(1+0i)", "(0.5i)"]);
-    }
-    let mut v: Vec<String> = t.iter().map(|s| s.to_string()).collect();
-    v.sort();
-    v.dedup();
-    v
-}
-
-/// every function name and alias of the evaluator applied to the critical arguments (one argument: all of
-/// them; two: all ordered pairs; variadic: pairs and triples over a sub-list), plus the postfix operators
-pub fn critical(ev: Ev) -> Vec<String> {
-    let crit = critical_texts(ev);
-    let mut out = Vec::new();
-    let names: Vec<(&str, Func)> = func_names(ev).to_vec();
-    let short: Vec<&String> = crit.iter().filter(|c| c.len() <= 9 || c.contains("e)") || c.contains("367879441171442321595")).collect();
-    for (name, f) in &names {
-        match f.arity() {
-            Arity::Fixed(1) => {
-                for c in &crit {
-                    out.push(format!("{}({})", name, c));
-                }
-            }
-            Arity::Fixed(_) => {
-                for a in &crit {
-                    for b in &crit {
-                        out.push(format!("{}({},{})", name, a, b));
-                    }
-                }
-            }
-            _ => {
-                for a in &crit {
-                    out.push(format!("{}({})", name, a));
-                    for b in &crit {
-                        out.push(format!("{}({},{})", name, a, b));
-                    }
-                }
-                for a in &short {
-                    for b in &short {
-                        for c in &short {
-                            out.push(format!("{}({},{},{})", name, a, b, c));
-                        }
-                    }
-                }
-            }
-        }
-    }
-    for c in &crit {
-        if ev.has_factorial() {
-            out.push(format!("{}!", c));
-        }
-        if ev.has_deg_rad() {
-            out.push(format!("{}°", c));
-            out.push(format!("{}rad", c));
-        }
-        if ev.has_floor_brackets() {
-            out.push(format!("⌊{}⌋", c));
-            out.push(format!("⌈{}⌉", c));
-        }
-        out.push(format!("{}²", c));
-        out.push(format!("-{}", c));
-        for d in &crit {
-            for op in ["^", "/", "%", "*", "+", "-"] {
-                out.push(format!("{}{}{}", c, op, d));
-            }
-        }
-    }
-    out.sort();
-    out.dedup();
-    out
-}
+pub use refmodel::families::critical;
 
 fn critical_dom<D: Dom>(cx: &RunCtx, kinds: &[Kind]) {
-    let inputs = critical(D::EV);
+    let inputs = critical(D::EV, true);
     run_list::<D>(cx, "E-FUNC every name x critical arguments (branch points, poles, range limits)", &inputs, &D::pool_critical(), kinds);
 }
 
@@ -555,4 +467,95 @@ pub fn nested_slips_all(cx: &RunCtx, kinds: &[Kind]) {
     nested_slips_dom::<Dec>(cx, kinds);
     nested_slips_dom::<Cpx>(cx, kinds);
     nested_slips_dom::<Num>(cx, kinds);
+}
+
+/// the code points next to (±1, ±2) every non-ASCII character that some evaluator accepts, and look-alikes
+/// from the same Unicode blocks, none of which any evaluator accepts
+pub fn foreign_neighbours() -> Vec<char> {
+    let accepted: Vec<char> = "π°²³¹⁰⁴⁵⁶⁷⁸⁹⌊⌋⌈⌉".chars().chain(WHITE_SPACE.iter().copied()).collect();
+    let mut out: Vec<char> = Vec::new();
+    for c in "π°²³¹⁰⁴⁵⁶⁷⁸⁹⌊⌋⌈⌉".chars() {
+        for d in [-2i32, -1, 1, 2] {
+            if let Some(n) = char::from_u32((c as i32 + d) as u32) {
+                out.push(n);
+            }
+        }
+    }
+    // look-alikes: superscript / subscript letters and signs, masculine / feminine ordinal, ring above, other pi's,
+    // full-width digits and operators, other brackets, a combining mark, the replacement character, an astral digit
+    out.extend("ⁱⁿ⁺⁻⁼⁽⁾₀₁₂₃₉ªº˚∘ϖΠ∏𝜋０１２＋－＊／（）［］⟦⟧⌜⌝\u{0301}\u{fffd}𝟐٣".chars());
+    out.retain(|c| !accepted.contains(c) && !c.is_ascii());
+    out.sort();
+    out.dedup();
+    out
+}
+
+/// every foreign neighbour inserted at every character position of every base string
+pub fn foreign_insertions(bases: &[String]) -> Vec<String> {
+    let fs = foreign_neighbours();
+    let mut out = Vec::new();
+    for b in bases {
+        let cs: Vec<char> = b.chars().collect();
+        for i in 0..=cs.len() {
+            for f in &fs {
+                let mut t: String = cs[..i].iter().collect();
+                t.push(*f);
+                t.extend(cs[i..].iter());
+                out.push(t);
+            }
+        }
+    }
+    out
+}
+
+/// base strings for the foreign-character insertions: every sequence of up to three lexical fragments
+pub fn lexical_bases(ev: Ev) -> Vec<String> {
+    let mut f: Vec<&str> = vec!["2", "13", "@", "+", "-", "(", ")", ",", "²", "³", "¹⁰", "abs(", "pow(", "^"];
+    if ev.has_point() {
+        f.extend(["0.5", "."]);
+    }
+    if ev.has_consts() {
+        f.extend(["pi", "π", "e"]);
+    }
+    if ev.has_factorial() {
+        f.push("!");
+    }
+    if ev.has_deg_rad() {
+        f.extend(["°", "rad"]);
+    }
+    if ev.has_floor_brackets() {
+        f.extend(["⌊", "⌋", "⌈", "⌉"]);
+    }
+    if ev == Ev::Cpx {
+        f.extend(["i", "3i"]);
+    }
+    if ev.has_bitops() {
+        f.push("<<");
+    }
+    let mut out: Vec<String> = Vec::new();
+    for a in &f {
+        out.push(a.to_string());
+        for b in &f {
+            out.push(format!("{}{}", a, b));
+            for c in &f {
+                out.push(format!("{}{}{}", a, b, c));
+            }
+        }
+    }
+    out.sort();
+    out.dedup();
+    out
+}
+
+fn foreign_dom<D: Dom>(cx: &RunCtx, kinds: &[Kind]) {
+    let inputs = foreign_insertions(&lexical_bases(D::EV));
+    run_list::<D>(cx, "E-FAM foreign neighbour characters inserted at every position", &inputs, &[D::default_at()], kinds);
+}
+
+pub fn foreign_all(cx: &RunCtx, kinds: &[Kind]) {
+    foreign_dom::<F64>(cx, kinds);
+    foreign_dom::<I64>(cx, kinds);
+    foreign_dom::<Dec>(cx, kinds);
+    foreign_dom::<Cpx>(cx, kinds);
+    foreign_dom::<Num>(cx, kinds);
 }
